@@ -1404,6 +1404,21 @@ class Interp:
     def index(self, base: V, idx: V, st: State, node) -> list[Out]:
         if isinstance(base, (ListV, TupleV)):
             i = self.as_int(idx)
+            if i is not None and not i.is_const() and 0 < len(st.items(base)) <= 256:
+                # a table looked up with a symbolic index: one path per entry (negative indices count from the end,
+                # as they do in Python), IndexError outside
+                items = st.items(base)
+                n = len(items)
+                res = []
+                for k in range(-n, n):
+                    s2 = st.clone()
+                    if s2.add(eq(i, k)):
+                        res.extend(self.val(s2, items[k]))
+                for cons in (ge(i, n), le(i, -n - 1)):
+                    s3 = st.clone()
+                    if s3.add(cons):
+                        res.extend(self.raise_(s3, "IndexError", node))
+                return res
             if i is None or not i.is_const():
                 self.unsupported(node, "symbolic index")
             i = int(i.const)
